@@ -466,13 +466,14 @@ class CopyIdentifiersByKind(Contract):
     has_native = True
     native_shards = 4
     props = ("C06",)
-    bounded_scope = "one object per kind in {points, curve, surface, grid2d, geoimage, block model, octree, drillhole, airborne TEM pair, DC/IP pair, tipper pair, group of objects} with data; copy into an empty other workspace, again into the same other workspace, and inside the source workspace (exhaustive over the 12 kinds)"
+    bounded_scope = "one object per kind in {points, curve, surface, grid2d, geoimage, block model, octree, drillhole, airborne TEM pair, DC/IP pair, tipper pair, group of objects, drillhole group with two holes} with data; copy into an empty other workspace, again into the same other workspace, and inside the source workspace (exhaustive over the 12 kinds)"
 
     def native_cases(self, tier, rng):
         from contracts.copy_wf import KINDS
 
         for kind in KINDS:
             yield {"kind": kind}
+        yield {"kind": "drillhole-group"}  # two holes with logs, stored as records of the group
         # any text is a valid name, the empty one included: identifier bookkeeping does not go by names
         for kind in ("points", "curve", "grid2d", "group"):
             for name in ("", " "):
@@ -485,6 +486,9 @@ class CopyIdentifiersByKind(Contract):
 
         def add(e, prefix=""):
             out[prefix + e.name] = e.uid
+            for log in (getattr(e, "get_data_list", lambda: [])() if hasattr(e, "concat_attr_str") is False and type(e).__name__.startswith("Concatenated") else []):
+                for c in e.get_data(log):  # logs of a hole in a drillhole group are loaded on request
+                    out[prefix + e.name + "/" + c.name] = c.uid
             for c in getattr(e, "children", []):
                 if hasattr(c, "uid") and hasattr(c, "name") and hasattr(c, "entity_type"):
                     if hasattr(c, "children"):
@@ -512,7 +516,17 @@ class CopyIdentifiersByKind(Contract):
         d = tempfile.mkdtemp()
         try:
             with Workspace.create(os.path.join(d, "src.geoh5")) as ws, Workspace.create(os.path.join(d, "dst.geoh5")) as other:
-                obj = build(ws, case["kind"])
+                if case["kind"] == "drillhole-group":
+                    from geoh5py.groups import DrillholeGroup
+                    from geoh5py.objects import Drillhole
+
+                    obj = DrillholeGroup.create(ws, name="dh-group")
+                    for k in range(2):
+                        hole = Drillhole.create(ws, parent=obj, name=f"hole{k}", collar=[10.0 * k, 0.0, 0.0])
+                        hole.add_data({f"log{k}": {"depth": np.arange(3.0), "values": np.arange(3.0) + k}})
+                        _ = hole.get_data(f"log{k}")
+                else:
+                    obj = build(ws, case["kind"])
                 if case.get("name") is not None:
                     obj.name = case["name"]
                 mine = self._family(obj)
